@@ -675,6 +675,7 @@ func main() {
 	w("  mapTable := [\n    %s]\n", strings.Join(mapEntries, ",\n    "))
 	w("  mapDefault := ⟨%s, %s, %s, %s⟩\n", md.castK, md.castV, md.kw, md.vw)
 	w("  mapBinaryGuard := %v\n", binaryGuard)
+	w("  mapDoubleKeyGuard := %v\n", contains(upd, `if ok && t\.K\.T == tDOUBLE \{[^}]*ok = false \}`))
 	// decoder.go: the string decoders decide []byte-vs-string with a test that looks through a
 	// pointer node (optional `*[]byte` fields carry T_pointer on the node and T_binary on its element)
 	ibt := findFunc(rf, "isBinaryType")
